@@ -125,6 +125,10 @@ var registry = []Harness{
 		Bound: "native-Go mode (fixed-width integers): divideFundsEvenly for n = param receivers and every 64-bit amount"},
 	{Prop: "C13", Pkg: "deploy", Func: "VerifC13TxWindow", Native: true,
 		Bound: "native-Go mode: neoFSRuntimeTransactionModifier for every 32-bit height (two symbolic heights) and both invocation outcomes; actor.DefaultCheckerModifier stubbed by its documented contract (error iff state != HALT)"},
+	{Prop: "C16", Pkg: "proxy", Func: "VerifC16Gate", Link: []string{"alphabet", "audit", "balance", "container", "neofs", "neofsid", "netmap", "nns", "processing", "proxy", "reputation"},
+		Quick:    [][]int{{0, 1}, {1, 7}, {2, 7}, {3, 1}, {4, 1}, {5, 1}, {6, 7}, {7, 7}, {8, 1}, {9, 7}, {10, 1}},
+		Thorough: [][]int{{0, 1}, {1, 1}, {2, 1}, {3, 1}, {4, 1}, {5, 1}, {6, 1}, {7, 1}, {8, 1}, {9, 1}, {10, 1}, {0, 4}, {1, 4}, {2, 4}, {3, 4}, {5, 4}, {6, 4}, {7, 4}, {9, 4}, {10, 4}, {2, 7}, {6, 7}, {7, 7}},
+		Bound:    "contract #param0 of the 11 freshly deployed (post-deploy storage) as a release reporting a SYMBOLIC version v in Z, committee size param1, update with symbolic presence of the committee-majority, Alphabet and Inner-Ring-majority accounts; the replay builds the old release from a scratch copy of the tree with the version constant set to v"},
 }
 
 func ipv4Shapes() [][]int {
@@ -152,5 +156,6 @@ func allTriples(n int) [][]int {
 	}
 	return out
 }
+
 
 
